@@ -15,7 +15,7 @@ TRANSFORMS = ["remove_measurements", "remove_barriers", "remove_includes", "popu
 OBSERVERS = ["dumps", "num_qubits", "num_clbits", "has_measurements", "has_barriers", "depth"]
 
 COQ_OP = {"validate": "OValidate", "unroll": "OUnroll", "depth": "ODepth", "num_qubits": "ONumQ", "num_clbits": "ONumC",
-          "has_measurements": "OHasM", "has_barriers": "OHasB", "dumps": "ODumps", "copy": "OCopy"}
+          "has_measurements": "OHasM", "has_barriers": "OHasB", "dumps": "ODumps", "copy": "OCopy", "to_qasm3": "OToQasm3"}
 COQ_TR = {"remove_measurements": "ORemove KMeas %s", "remove_barriers": "ORemove KBarr %s", "remove_includes": "ORemove KIncl %s",
           "populate_idle_qubits": "OPopulate %s", "remove_idle_qubits": "ORemoveIdle %s", "reverse_qubit_order": "OReverse %s"}
 
@@ -109,7 +109,7 @@ def run_real(src, hist):
             prev = hist[k - 1]
             pi = prev[0]
             # ... and a call that returns a new module (copy, in_place=False) leaves its own receiver as it was, too
-            keeps_receiver = prev[1] == "copy" or (len(prev) > 2 and not prev[2])
+            keeps_receiver = prev[1] in ("copy", "to_qasm3") or (len(prev) > 2 and not prev[2])
             for j, (a, b) in enumerate(zip(before, after)):
                 if (j != pi or keeps_receiver) and a != b and len(run_real.frames) < 3:
                     run_real.frames.append({"after_call": k - 1, "call": list(hist[k - 1]), "changed_module": j, "before": a, "after": b})
@@ -141,6 +141,9 @@ def run_real(src, hist):
                 outs.append(("XUnit", None))
             elif name == "copy":
                 mods.append(m.copy())
+                outs.append(("XNew", None))
+            elif name == "to_qasm3":
+                mods.append(m.to_qasm3())           # AttributeError on a version-3 module
                 outs.append(("XNew", None))
             else:
                 inpl = op[2]
